@@ -98,6 +98,112 @@ theorem flatten_content_partial (comb : Nat → κ → κ → κ) (mf : List ν 
    content_flatLv comb dflt r l f,
    ((monoLvB_iff comb dflt r l f).1 hm).sorted⟩
 
+/-! ### merge with collisions (down to the leaves) -/
+
+/-- **Merge reduces colliding points with the merge function.**  For ANY two-rank tree (nothing
+    assumed: any coordinates, explicit defaults, empty sub-fibers), any way `comb` of combining
+    the two coordinates (absolute, relative, linear, tuple …) and any `merge_fn`:
+    `_mergeRanksHelper(levels=1)` returns the fiber whose coordinates are exactly the new
+    coordinates of the presented (non-default) points, ascending, each once (`G`), and whose
+    payload at a coordinate is the value itself when a single point got it, otherwise `merge_fn`
+    of the colliding values in traversal order (`foldVals`); it raises iff `merge_fn` does
+    (`flattenRanks`: iff there is a collision). -/
+theorem merge_leaf_spec (comb : κ → κ → κ) (mf : List ν → Option ν) (z dflt : ν) (f : Tree κ ν 2) :
+    ∃ G : Fib κ (List ν), Sorted G ∧
+      (∀ row ∈ G, row.2 = valsAt (leafPairs comb dflt f) row.1 ∧ row.2 ≠ []) ∧
+      (∀ c, HasKey G c ↔ HasKey (leafPairs comb dflt f) c) ∧
+      merge2 comb mf z dflt 0 f =
+        (mapM? (fun row => (foldVals mf row.2).map (fun v => (row.1, v))) G).map
+          (fun l => show Tree κ ν 1 from l) := by
+  -- the groups the implementation builds (payloads tagged with their default)
+  have hrows : pairsOf comb ((show List (κ × Tree κ ν 1) from f).map
+      (fun e => (e.1, tagWith dflt (present dflt 0 e.2)))) = tagWith dflt (leafPairs comb dflt f) := by
+    have e := pairsOf_map_tag comb dflt ((show List (κ × Tree κ ν 1) from f).map
+      (fun e => (e.1, (show List (κ × ν) from present dflt 0 e.2))))
+    rw [List.map_map] at e
+    exact e
+  obtain ⟨hs, hr, hk⟩ := gather_spec comb ((show List (κ × Tree κ ν 1) from f).map
+      (fun e => (e.1, tagWith dflt (present dflt 0 e.2))))
+  rw [hrows] at hr hk
+  refine ⟨(gather comb ((show List (κ × Tree κ ν 1) from f).map
+      (fun e => (e.1, tagWith dflt (present dflt 0 e.2))))).map
+        (fun row => (row.1, row.2.map (fun t => (show ν from t.1)))), ?_, ?_, ?_, ?_⟩
+  · unfold Sorted
+    rw [List.pairwise_map]
+    exact hs
+  · intro row hrow
+    obtain ⟨row', hrow', rfl⟩ := List.mem_map.1 hrow
+    have := hr row' hrow'
+    have key : row'.2.map (fun t => (show ν from t.1)) = valsAt (leafPairs comb dflt f) row'.1 := by
+      refine (congrArg (List.map (fun t : Tree κ ν 0 × ν => (show ν from t.1))) this.1).trans ?_
+      refine (congrArg (List.map (fun t : ν × ν => t.1))
+        (valsAt_tagWith dflt (leafPairs comb dflt f) row'.1)).trans ?_
+      rw [List.map_map]
+      conv => rhs; rw [← List.map_id (valsAt (leafPairs comb dflt f) row'.1)]
+      apply List.map_congr_left
+      intro x _; rfl
+    refine ⟨key, ?_⟩
+    show row'.2.map _ ≠ []
+    intro h
+    exact this.2 (List.map_eq_nil_iff.1 h)
+  · intro c
+    have h1 : HasKey ((gather comb ((show List (κ × Tree κ ν 1) from f).map
+        (fun e => (e.1, tagWith dflt (present dflt 0 e.2))))).map
+          (fun row => (row.1, row.2.map (fun t => (show ν from t.1))))) c ↔
+        HasKey (gather comb ((show List (κ × Tree κ ν 1) from f).map
+          (fun e => (e.1, tagWith dflt (present dflt 0 e.2))))) c := by
+      constructor
+      · rintro ⟨row, hrow, rfl⟩
+        obtain ⟨row', hrow', rfl⟩ := List.mem_map.1 hrow
+        exact ⟨row', hrow', rfl⟩
+      · rintro ⟨row', hrow', rfl⟩
+        exact ⟨_, List.mem_map.2 ⟨row', hrow', rfl⟩, rfl⟩
+    have h2 : HasKey (tagWith dflt (leafPairs comb dflt f)) c ↔ HasKey (leafPairs comb dflt f) c := by
+      unfold tagWith
+      constructor
+      · rintro ⟨x, hx, rfl⟩
+        obtain ⟨y, hy, rfl⟩ := List.mem_map.1 hx
+        exact ⟨y, hy, rfl⟩
+      · rintro ⟨y, hy, rfl⟩
+        exact ⟨_, List.mem_map.2 ⟨y, hy, rfl⟩, rfl⟩
+    exact h1.trans ((hk c).trans h2)
+  · have hfinal : ∀ a ∈ gather comb ((show List (κ × Tree κ ν 1) from f).map
+          (fun e => (e.1, tagWith dflt (present dflt 0 e.2)))),
+        ((mergeTrees mf z 0 a.2).map (fun t => (a.1, t))).map
+            (fun e : κ × (Tree κ ν 0 × ν) => ((e.1, (show ν from e.2.1)) : κ × ν)) =
+          (foldVals mf (a.2.map (fun t => (show ν from t.1)))).map (fun v => (a.1, v)) := by
+      intro a ha
+      have hv : a.2 = (valsAt (leafPairs comb dflt f) a.1).map (fun v => ((show Tree κ ν 0 from v), dflt)) :=
+        (hr a ha).1.trans (valsAt_tagWith dflt (leafPairs comb dflt f) a.1)
+      obtain ⟨c, l⟩ := a
+      simp only [] at hv
+      subst hv
+      have hl := mergeTrees_leaf (κ := κ) mf z dflt (valsAt (leafPairs comb dflt f) c)
+      have hm : (List.map (fun v => ((show Tree κ ν 0 from v), dflt)) (valsAt (leafPairs comb dflt f) c)).map
+          (fun t : Tree κ ν 0 × ν => (show ν from t.1)) = valsAt (leafPairs comb dflt f) c := by
+        rw [List.map_map]
+        conv => rhs; rw [← List.map_id (valsAt (leafPairs comb dflt f) c)]
+        apply List.map_congr_left
+        intro x _; rfl
+      have e1 : foldVals mf ((List.map (fun v => ((show Tree κ ν 0 from v), dflt)) (valsAt (leafPairs comb dflt f) c)).map
+          (fun t : Tree κ ν 0 × ν => (show ν from t.1))) = foldVals mf (valsAt (leafPairs comb dflt f) c) :=
+        congrArg (foldVals mf) hm
+      refine Eq.trans ?_ (congrArg (Option.map (fun v => (c, v))) (hl.trans e1.symm))
+      show Option.map (fun e : κ × (Tree κ ν 0 × ν) => ((e.1, (show ν from e.2.1)) : κ × ν))
+          (Option.map (fun t => (c, t)) (mergeTrees (κ := κ) mf z 0
+            (List.map (fun v => ((show Tree κ ν 0 from v), dflt)) (valsAt (leafPairs comb dflt f) c)))) =
+        Option.map (fun v => (c, v)) (Option.map (fun t : Tree κ ν 0 × ν => (show ν from t.1))
+          (mergeTrees (κ := κ) mf z 0
+            (List.map (fun v => ((show Tree κ ν 0 from v), dflt)) (valsAt (leafPairs comb dflt f) c))))
+      generalize mergeTrees (κ := κ) mf z 0
+        (List.map (fun v => ((show Tree κ ν 0 from v), dflt)) (valsAt (leafPairs comb dflt f) c)) = o
+      cases o <;> rfl
+    unfold merge2 merge2T mergeRows
+    rw [mapM?_map_in, ← mapM?_congr _ hfinal, ← mapM?_map_out]
+    cases mapM? (fun row => (mergeTrees mf z 0 row.2).map (fun t => (row.1, t)))
+      (gather comb ((show List (κ × Tree κ ν 1) from f).map
+        (fun e => (e.1, tagWith dflt (present dflt 0 e.2))))) <;> rfl
+
 /-! ### unflatten -/
 
 /-- **Unflatten** (any number of levels): on a well-formed fiber with at least one element whose
@@ -486,6 +592,19 @@ example : ∃ t', unflattenT (fun c => c.take 1) (fun c => c.drop 1) (0 : Int) 0
       content (0 : Int) 3 t' = (content (0 : Int) 2 tU).map
         (fun pv => (liftN (splitTop (fun c => c.take 1) (fun c => c.drop 1) 0) 1 pv.1, pv.2)) :=
   unflattenT_content_partial (0 : Int) 0 0 1 tU ((wfB_iff 2 tU).1 (by decide)) (by decide) (by decide)
+
+-- merge ranks A,B of a two-rank tensor with absolute coordinates and the default merge function:
+-- B=0 collides (1+4), B=2 collides (2-2 = 0 is stored explicitly), the explicit default at B=1 is skipped
+def tM : TI 2 := show List (Int × TI 1) from
+  [(0, mkI1 [(0, 1), (2, 2)]), (1, mkI1 [(0, 4), (1, 0), (2, -2)])]
+example : merge2 (fun _ c => c) mfSum (0 : Int) 0 0 tM = some (mkI1 [(0, 5), (2, 0)]) := by decide
+example : leafPairs (fun _ c => c) (0 : Int) tM = [(0, 1), (2, 2), (0, 4), (2, -2)] := by decide
+example : ∃ G : Fib Int (List Int), Sorted G ∧
+      (∀ row ∈ G, row.2 = valsAt (leafPairs (fun _ c => c) (0 : Int) tM) row.1 ∧ row.2 ≠ []) ∧
+      (∀ c, HasKey G c ↔ HasKey (leafPairs (fun _ c => c) (0 : Int) tM) c) ∧
+      merge2 (fun _ c => c) mfSum (0 : Int) 0 0 tM =
+        (mapM? (fun row => (foldVals mfSum row.2).map (fun v => (row.1, v))) G).map (fun l => show TI 1 from l) :=
+  merge_leaf_spec (fun _ c => c) mfSum (0 : Int) 0 tM
 
 end C09.Ex
 
